@@ -206,6 +206,10 @@ class ConvexSpheropolygon(Shape2D):
         angles = np.mod(angles, 2 * np.pi)
         num_verts = self.num_vertices
         verts = self._polygon.vertices[:, :2] - self._polygon.centroid[:2]
+        if self._polygon.normal[2] < 0:
+            # Listed clockwise in the xy plane: the construction below needs the
+            # counterclockwise listing of the same cycle.
+            verts = verts[::-1]
 
         # compute intermediates
         v1 = np.roll(verts, 1, axis=0)
